@@ -342,7 +342,8 @@ class Table:
             else:
                 s = "(%s %s)" % (op, " ".join(self.show(a, names) for a in r["a"]))
         if names and i in names:
-            s = "(! %s :named %s)" % (s, quote_sym(names[i]))
+            # annotate the first occurrence only (a name may be introduced once)
+            s = "(! %s :named %s)" % (s, quote_sym(names.pop(i)))
         return s
 
     def subterms(self, i, acc=None):
